@@ -830,54 +830,59 @@ def random_walk(seed, tid, cfgs, N, length, thorough):
             elif step[0] == "switch":
                 if other is not None:
                     o, other = other, o
-        # end of the history: no stale caches - every earlier query again, on the long-lived object and on a
-        # fresh object built from the same gate list
-        ref = np_state(o.accepted, N)
-        try:
-            fresh = Obj(cfg, N)
-            for g in o.accepted:
-                fresh.apply(g)
-                fresh.accepted.append(g)
-        except Exception:  # noqa
-            fresh = None
-        for q in done_q[-6:] + [{"kind": "dense", "rev": False}, {"kind": "psi"}]:
-            if q["kind"] not in cfg.kinds and not (q["kind"] == "psi" and "dense" in cfg.kinds):
-                continue
-            r = dict(base, ev="stale", exc="", dq=0, dqref=0, h=_hflags(o.accepted, o), **_qfields(q))
-            if q["kind"] == "uni":
-                r["bare"] = _bare_wires(o.accepted, N)
-            if q["kind"] in ("amp", "marg"):
-                r["zero"] = bool(np.sum(np.abs(np_query(q, ref, o.accepted, N))) < 1e-12)
+        live = [o] + ([other] if other is not None else [])     # both objects stay alive and are both judged
+        for o in live:
+            # end of the history: no stale caches - every earlier query again, on the long-lived object and on a
+            # fresh object built from the same gate list
+            ref = np_state(o.accepted, N)
             try:
-                tol = 1e-5 if (q["kind"] == "marg" and cfg.cls in ("Circuit", "CircuitDense")) else cfg.rtol
-                v1 = np.asarray(o.query(q))
-                r["dqref"] = qdiff(v1, np.asarray(np_query(q, ref, o.accepted, N)), tol)
-                if fresh is not None:
-                    v2 = np.asarray(fresh.query(q))
-                    r["dq"] = qdiff(v1, v2, tol)
-            except Exception as ex:  # noqa
-                r["exc"] = _exc_name(ex)
-            recs.append(r)
-        # samples: support (and for the MPS samplers the reported probability)
-        for k in ("sample", "gbg", "sampleprob"):
-            if k not in cfg.kinds or (k == "gbg" and (N > 4 or not thorough)):
-                continue
-            r = dict(base, ev="rel", kind=k, exc="", dq=0, h=_hflags(o.accepted, o))
-            try:
-                v = o.query({"kind": k}, rng_seed=seed % 100000)
-                pr = np.abs(ref) ** 2
-                bad = 0
-                for item in v:
-                    bits, rep = (item, None) if k != "sampleprob" else item
-                    p = pr[int("".join(str(b) for b in bits), 2)]
-                    if p < 1e-9:
-                        bad = max(bad, 999)
-                    if rep is not None:
-                        bad = max(bad, qdiff(rep, p, cfg.rtol))
-                r["dq"] = int(bad)
-            except Exception as ex:  # noqa
-                r["exc"] = _exc_name(ex)
-            recs.append(r)
+                fresh = Obj(cfg, N)
+                for g in o.accepted:
+                    fresh.apply(g)
+                    fresh.accepted.append(g)
+            except Exception:  # noqa
+                fresh = None
+            for q in done_q[-6:] + [{"kind": "dense", "rev": False}, {"kind": "psi"}]:
+                if q["kind"] not in cfg.kinds and not (q["kind"] == "psi" and "dense" in cfg.kinds):
+                    continue
+                r = dict(base, ev="stale", exc="", dq=0, dqref=0, h=_hflags(o.accepted, o), **_qfields(q))
+                if fresh is not None and fresh.expcopy:
+                    r["h"]["expcopy"] = True
+                if q["kind"] == "uni":
+                    r["bare"] = _bare_wires(o.accepted, N)
+                if q["kind"] in ("amp", "marg"):
+                    r["zero"] = bool(np.sum(np.abs(np_query(q, ref, o.accepted, N))) < 1e-12)
+                try:
+                    tol = 1e-5 if (q["kind"] == "marg" and cfg.cls in ("Circuit", "CircuitDense")) else cfg.rtol
+                    v1 = np.asarray(o.query(q))
+                    r["dqref"] = qdiff(v1, np.asarray(np_query(q, ref, o.accepted, N)), tol)
+                    if fresh is not None:
+                        v2 = np.asarray(fresh.query(q))
+                        r["dq"] = qdiff(v1, v2, tol)
+                except Exception as ex:  # noqa
+                    r["exc"] = _exc_name(ex)
+                recs.append(r)
+            # samples: support (and for the MPS samplers the reported probability)
+            for k in ("sample", "gbg", "sampleprob"):
+                if k not in cfg.kinds or (k == "gbg" and (N > 4 or not thorough)):
+                    continue
+                r = dict(base, ev="rel", kind=k, exc="", dq=0, h=_hflags(o.accepted, o))
+                try:
+                    v = o.query({"kind": k}, rng_seed=seed % 100000)
+                    pr = np.abs(ref) ** 2
+                    bad = 0
+                    for item in v:
+                        bits, rep = (item, None) if k != "sampleprob" else item
+                        p = pr[int("".join(str(b) for b in bits), 2)]
+                        if p < 1e-9:
+                            bad = max(bad, 999)
+                        if rep is not None:
+                            bad = max(bad, qdiff(rep, p, cfg.rtol))
+                    r["dq"] = int(bad)
+                except Exception as ex:  # noqa
+                    r["exc"] = _exc_name(ex)
+                recs.append(r)
+        o = live[0]
         try:
             if "dense" not in cfg.kinds:
                 continue
@@ -963,8 +968,10 @@ def run(ctx):
         model_run(ctx, "MC_C07", "MC_thorough_permauto.cfg", "CircuitPermMPS auto-mps N=3 depth 3", PM, w)
     must_fail(ctx, "MC_dev_permswap.cfg", "RejectClean", "KF-C07-1: SWAP on CircuitPermMPS raises after the permutation was updated")
     must_fail(ctx, "MC_dev_upd.cfg", "RejectClean", "KF-C07-4: update_params_from raises half-way on a circuit holding SWAP / IDEN / a raw gate")
+    must_fail(ctx, "MC_dev_sharedinfo.cfg", "InfoSound", "copy() that shares gate_opts['info'] between the two objects: a gate on one falsifies the record of the other")
     if not quick:
         must_fail(ctx, "MC_dev_permctrl.cfg", "PermSound", "KF-C07-2: controls are not translated to physical sites")
+        must_fail(ctx, "MC_dev_expeccopy.cfg", "InfoSound", "KF-C07-9: local_expectation(dtype=...) canonicalises a copy of the MPS but records the centre in the object's info")
         must_fail(ctx, "MC_dev_ctliden.cfg", "QueriesAgree", "pre-fix (0e107742) reverse light cone that drops the tensors of a controlled IDEN (cut wire)")
         must_fail(ctx, "MC_dev_copy.cfg", "QueriesAgree", "pre-fix (b38acc9f) copy() that loses _marginal_storage_size, sample() on the copy raises")
         must_fail(ctx, "MC_mut_cone.cfg", "QueriesAgree", "mutated reverse light cone that ignores SWAP relabelling")
@@ -1036,7 +1043,7 @@ def run(ctx):
     ctx.clauses.update(["GateMatrixTextbook", "GateUnitary", "RejectClean", "AmplitudeAgrees", "DenseAgrees", "UniAgrees",
                         "PartialTraceAgrees", "LocalExpectationAgrees", "MarginalAgrees", "SampleInSupport", "SampleProbTrue",
                         "NoStaleCache", "AllClassesAgree", "CopyReturns",
-                        "model: RegIsRun NormOne QueriesAgree NoStaleRead RejectClean StoreCurrent PermSound PermIsPerm Unitary Families"])
+                        "model: RegIsRun NormOne QueriesAgree NoStaleRead RejectClean StoreCurrent PermSound PermIsPerm InfoSound Unitary Families"])
     ctx.assumptions += [
         "qubit 0 is the most significant bit of to_dense()/amplitude strings; the first gate qubit is the most significant bit of the gate matrix; controls act on |1>",
         "partial_trace(keep)[a, b] = sum_rest psi[a, rest] conj(psi[b, rest]) with the subsystems in the order of `keep`; compute_marginal returns the joint probability with the fixed outcomes",
